@@ -149,7 +149,11 @@ fn format_variant(
                         Some(type_override) => quote!(#type_override),
                         None => {
                             let ty = field_attr.type_as(&field.ty);
-                            quote!(<#ty as #crate_rename::TS>::name())
+                            if field_attr.inline {
+                                quote!(<#ty as #crate_rename::TS>::inline())
+                            } else {
+                                quote!(<#ty as #crate_rename::TS>::name())
+                            }
                         }
                     };
                     quote!(
@@ -180,7 +184,11 @@ fn format_variant(
                             Some(type_override) => quote! { #type_override },
                             None => {
                                 let ty = field_attr.type_as(&field.ty);
-                                quote!(<#ty as #crate_rename::TS>::name())
+                                if field_attr.inline {
+                                    quote!(<#ty as #crate_rename::TS>::inline())
+                                } else {
+                                    quote!(<#ty as #crate_rename::TS>::name())
+                                }
                             }
                         };
 
